@@ -44,6 +44,14 @@ def install(ctx):
         for kk in [x for x in _state["computed"] if x[0] == k]:
             _state["computed"].pop(kk, None)
 
+    def remember(obj, k, fpv):
+        if not any(x[0] == k[0] for x in _state["computed"]):
+            try:
+                weakref.finalize(obj, forget, k[0])
+            except TypeError:
+                pass
+        _state["computed"][k] = fpv
+
     def get(self, obj, cls):
         if obj is None:
             return self
@@ -55,12 +63,7 @@ def install(ctx):
             v = self.func(obj)
             d[name] = v
             if ctx is not None:
-                if not any(x[0] == k[0] for x in _state["computed"]):
-                    try:
-                        weakref.finalize(obj, forget, k[0])
-                    except TypeError:
-                        pass
-                _state["computed"][k] = value_fp(v)
+                remember(obj, k, value_fp(v))
                 _state["events"]["compute"] += 1
             return v
         v = d[name]
@@ -91,7 +94,7 @@ def install(ctx):
             ctx.monitors["cache.inherited_matches"] += 1
             if own != fpv:
                 ctx.fire("cache.inherited_matches", quantity=cname, inherited=fpv[:60], own=own[:60], **_state["context"])
-            _state["computed"][k] = fpv
+            remember(obj, k, fpv)
         return v
 
     def set_(self, obj, value):
